@@ -13,7 +13,7 @@ PROPS = {
              "i128/f64 reference table, plus a literal-source route where the language can spell the operands and an "
              "op-assignment route (`a op= b` must equal `a = a op b` with the type-checked write); a case is "
              "non-trivial when it was evaluated and the reference defines the outcome; distinct = distinct "
-             "(op, operand, operand) renderings (64-bit hash; capped per shard, so counted conservatively) Also: every matrix case once more in a context with builtins disabled and all 49 builtin names bound to marker functions (operators must not consult the context's functions).",
+             "(op, operand, operand) renderings (64-bit hash; capped per shard, so counted conservatively) Also: every matrix case once more in a context with builtins disabled and all 49 builtin names bound to marker functions (operators must not consult the context's functions); boundaries of the narrower integer types in the pool.",
         assumptions=COMMON + ["f64 library functions (powf, fmod) are trusted: the reference calls the same libm",
                               "MIN % -1 may be 0 or an arithmetic error (both documented readings accepted)"],
     ),
@@ -23,7 +23,7 @@ PROPS = {
              "subpool^3, from type-directed random arguments, or from the len/substring unit-consistency sweep; the "
              "observed outcome is compared with the reference builtin (bit-exact value, error where the reference "
              "says error); non-trivial = the reference claims an outcome (not `unclaimed`); distinct = distinct "
-             "(name, argument) renderings Also: tuples of 50-600 elements and strings of 200-4000 characters as arguments; 18 names that must be unknown (aliases under foreign namespaces, feature-gated builtins); str::from of a non-string equals the Display of the value, alone and as a tuple element; every builtin on every whole number -1100..1100 (integer and float, alone and paired with 2, 10, 0.5); a third of the random numeric arguments within 1e-9 … 0.25 of the special points of the math functions; boundary-sized tuples and strings.",
+             "(name, argument) renderings Also: tuples of 50-600 elements and strings of 200-4000 characters as arguments; 18 names that must be unknown (aliases under foreign namespaces, feature-gated builtins); str::from of a non-string equals the Display of the value, alone and as a tuple element; every builtin on every whole number -1100..1100 (integer and float, alone and paired with 2, 10, 0.5); a third of the random numeric arguments within 1e-9 … 0.25 of the special points of the math functions; boundary-sized tuples and strings; every builtin with 0 … 10, 15-17, 31-33, 255, 256 arguments in 5 fillings; floats where exp / sinh / cosh / exp2 leave the finite range.",
         assumptions=COMMON + [
             "f64 library functions and Unicode case mapping / trimming are std's on both sides; only the wiring is checked",
             "not claimed (accepted, any non-panicking outcome): shifts outside 0..63, min/max with NaN or of an empty tuple, "
@@ -70,7 +70,7 @@ PROPS = {
              "a RecordingContext; the triple (result, final context, ordered log of user-function calls and set_value "
              "attempts) must equal the reference interpreter's, and the H2 hook trace must satisfy the schedule "
              "specification (children once, left to right, then apply; stop in the failing application); "
-             "non-trivial = the reference claims the program; distinct = distinct (source, initial context) Also per program: the read-only path (effects + schedule), one of the 14 typed mutable entry points (effects + final context), a second use of the same tree after an evaluation against a different context; long programs (50-300 statements), programs nested 130-330 levels, sequences of every size 2..70, trees evaluated 20-80 times on one context; type-directed programs that mostly run to completion; every program also on the bare HashMapContext (result + final context); user functions that insist on a tuple, call the library themselves or fail with another function's not-found error; NaN values; trees received through clone_from; an evaluated tree meeting a context that shadows the builtins; long scripts whose last statement does not parse (no effect at all); text with CR inside literals; functions nesting 66-77 evaluations.",
+             "non-trivial = the reference claims the program; distinct = distinct (source, initial context) Also per program: the read-only path (effects + schedule), one of the 14 typed mutable entry points (effects + final context), a second use of the same tree after an evaluation against a different context; long programs (50-300 statements), programs nested 130-330 levels, sequences of every size 2..70, trees evaluated 20-80 times on one context; type-directed programs that mostly run to completion; every program also on the bare HashMapContext (result + final context); user functions that insist on a tuple, call the library themselves or fail with another function's not-found error; NaN values; trees received through clone_from; an evaluated tree meeting a context that shadows the builtins; long scripts whose last statement does not parse (no effect at all); text with CR inside literals; functions nesting 66-77 evaluations; `if` with failing / assigning branches (all arguments are evaluated); wrong-arity calls of fixed-arity builtins after effects; a claimed program with effects that does not precompile is a violation.",
         assumptions=COMMON + [
             "not generated: `x op= e` whose e assigns x (two documented readings differ)",
             "get_value reads are logged but not order-compared with effects",
@@ -83,7 +83,7 @@ PROPS = {
              "the mutable result), the context must be observably unchanged with no set_value call, the H2 immutable "
              "schedule must be a prefix of the mutable one; also a default-set_value context through the mutable "
              "path and both empty contexts; non-trivial = the reference claims the program; distinct = distinct "
-             "(source, initial context) Also: every A16 token sequence up to length 4/5 and damaged programs (also ones the reference does not claim) with the projection decided by the H2 hook; C12's 48-entry-point checker on typed programs, numeric-looking strings and BOM-prefixed strings; deep and sized programs; a third of the programs: the evaluated tree is renamed through the mutable iterators and both paths must follow; run-time failures next to missing operands; the string-level mutable entry point equals the precompiled mutable run; literals with CR / CR+LF.",
+             "(source, initial context) Also: every A16 token sequence up to length 4/5 and damaged programs (also ones the reference does not claim) with the projection decided by the H2 hook; C12's 48-entry-point checker on typed programs, numeric-looking strings and BOM-prefixed strings; deep and sized programs; a third of the programs: the evaluated tree is renamed through the mutable iterators and both paths must follow; run-time failures next to missing operands; the string-level mutable entry point equals the precompiled mutable run; literals with CR / CR+LF; one context object evaluated read-only, then mutably.",
         assumptions=COMMON,
     ),
     "C09": dict(
@@ -93,7 +93,7 @@ PROPS = {
              "user function named n {absent, present} x variable named n {absent, present} x 10 call forms, each "
              "through 4 entry points (string/precompiled x immutable/mutable), plus random nested call chains; result, "
              "callee (recorded user-function calls) and argument shape must equal the reference lookup model; "
-             "non-trivial = the reference claims the cell; distinct = distinct (cell, entry point) (now 16 call forms incl. boolean / float literals, three arguments, an assignment inside the argument, Unicode blanks; user function absent / present / present-but-failing; one precompiled tree per form reused across configurations; 16 non-builtin names incl. builtins under foreign namespaces and feature-gated names; a fourth user-function mode (present but failing with another function's FunctionIdentifierNotFound: its error is the outcome); context kinds after 256 and after 65,536 clear_functions, clear_functions while a clone is alive, every function defined twice.)",
+             "non-trivial = the reference claims the cell; distinct = distinct (cell, entry point) (now 16 call forms incl. boolean / float literals, three arguments, an assignment inside the argument, Unicode blanks; user function absent / present / present-but-failing; one precompiled tree per form reused across configurations; 16 non-builtin names incl. builtins under foreign namespaces and feature-gated names; a fourth user-function mode (present but failing with another function's FunctionIdentifierNotFound: its error is the outcome); context kinds after 256 and after 65,536 clear_functions, clear_functions while a clone is alive, every function defined twice; a fifth user-function mode (the function calls its own name in a context of its own).)",
         assumptions=COMMON + ["a user function that itself returns FunctionIdentifierNotFound is not generated (it is the "
                               "Context trait's own 'undefined' signal)"],
     ),
@@ -102,7 +102,7 @@ PROPS = {
              "kind, hostile character soup; all 24 string-level and 24 tree-level entry points are called from clones "
              "of the same context and compared (Debug-structurally, NaN-aware) with the projection of the untyped "
              "evaluation; final contexts of mutable variants, repeatability and the precompile-error rule are checked "
-             "too; non-trivial = every pair; distinct = distinct (string, context) A third of the cases re-use a tree precompiled earlier and already evaluated under another context (some contexts shadow builtins); deep nesting (130-900), BOM prefixes, plausible pre-seeded constant names; trees received through clone_from; the 14 typed context entry points on up to four inner nodes per tree; a variable named like the whole source text; text-literal assignment targets; 60 pairs of equal-length sources colliding under 32-bit digests (truncated std hash, FNV-1a, djb2, sdbm, 31-polynomial) evaluated back to back; user functions nesting up to 80 string evaluations.",
+             "too; non-trivial = every pair; distinct = distinct (string, context) A third of the cases re-use a tree precompiled earlier and already evaluated under another context (some contexts shadow builtins); deep nesting (130-900), BOM prefixes, plausible pre-seeded constant names; trees received through clone_from; the 14 typed context entry points on up to four inner nodes per tree; a variable named like the whole source text; text-literal assignment targets; 60 pairs of equal-length sources colliding under 32-bit digests (truncated std hash, FNV-1a, djb2, sdbm, 31-polynomial) evaluated back to back; user functions nesting up to 80 string evaluations; a counting function in every context (read-only entry points run on clones, so that every entry point starts from the same state).",
         assumptions=COMMON + ["implementation against implementation: the untyped string-level mutable evaluation is the base"],
     ),
     "C14": dict(
@@ -111,7 +111,7 @@ PROPS = {
              "depth 12; the 5 immutable and 5 mutable iterators must equal the occurrence list of the generating AST; "
              "unknown-identifier errors must name listed identifiers; an injective renaming through the mutable "
              "iterators plus the same renaming of the context must not change the result; non-trivial = the program "
-             "precompiles; distinct = distinct source texts Also: partially advanced iterators finished through for_each / fold / last / count / nth; renamed source must precompile to the iterator-renamed tree; renaming per namespace; identifiers overlapping between the namespaces; non-ASCII identifiers whose low byte is an operator character; a quarter of the programs tight or under separator plans; identifiers containing U+FEFF / U+200B; literals respelled in hexadecimal / exponent form, also directly in front of a sign; interpolation-style text naming variables of the program; dotted names next to tuple-valued prefixes; variables in the builtin namespaces and named like constants; 15 marker-like first identifiers x every binary operator without blanks.",
+             "precompiles; distinct = distinct source texts Also: partially advanced iterators finished through for_each / fold / last / count / nth; renamed source must precompile to the iterator-renamed tree; renaming per namespace; identifiers overlapping between the namespaces; non-ASCII identifiers whose low byte is an operator character; a quarter of the programs tight or under separator plans; identifiers containing U+FEFF / U+200B; literals respelled in hexadecimal / exponent form, also directly in front of a sign; interpolation-style text naming variables of the program; dotted names next to tuple-valued prefixes; variables in the builtin namespaces and named like constants; 15 marker-like first identifiers x every binary operator without blanks; immutable vs mutable iterators of up to six inner nodes per program.",
         assumptions=COMMON,
     ),
     "C06": dict(
@@ -120,7 +120,7 @@ PROPS = {
              "10^k +-1, random, decimal / hex / leading zeros, embedded without spaces), a finite non-negative double "
              "in up to 8 renderings x 6 embeddings, or a word (generated identifiers and near-literals must be "
              "identifiers that can be assigned and read); the oracle is the round trip through the harness's own "
-             "renderers; non-trivial = every literal; distinct = distinct literal values Also: 100 two-character strings over a hostile set, 22 multi-character escape-like sequences (all must be errors), leading-dot exponent renderings, 40 quote / slash / star look-alikes and format characters, zero-width characters inside words; words with doubled or foreign radix prefixes; an identifier glued to a string literal is that function applied to that string; every literal also at the end of a 30-assignment program (its own `<mantissa>e` head used as an identifier before), after `1e+` / `2.5E-`, and with its inner blanks doubled; digit-heavy words up to 20 characters; strings, identifiers and digit runs of boundary lengths (1 … 2048); comments inside would-be signed exponents.",
+             "renderers; non-trivial = every literal; distinct = distinct literal values Also: 100 two-character strings over a hostile set, 22 multi-character escape-like sequences (all must be errors), leading-dot exponent renderings, 40 quote / slash / star look-alikes and format characters, zero-width characters inside words; words with doubled or foreign radix prefixes; an identifier glued to a string literal is that function applied to that string; every literal also at the end of a 30-assignment program (its own `<mantissa>e` head used as an identifier before), after `1e+` / `2.5E-`, and with its inner blanks doubled; digit-heavy words up to 20 characters; strings, identifiers and digit runs of boundary lengths (1 … 2048); comments inside would-be signed exponents; the typed context-free entry points on every identifier word (bare, negated, padded); operator words of other languages and foreign literal suffixes as identifiers.",
         assumptions=COMMON + ["Rust's float formatting/parsing (shortest round trip) is trusted to build the renderings; every "
                               "rendering is parsed back by the harness before the implementation is asked",
                               "integer / hex words outside the 64-bit range and floats overflowing to infinity are not claimed"],
@@ -131,7 +131,7 @@ PROPS = {
              "random separator plans (each gap independently: empty where no fusion is possible, any of the 25 "
              "White_Space characters, block and line comments); both renderings must precompile to equal trees or "
              "fail with equal errors; plus unterminated-comment and comment-marker-inside-string rules; non-trivial = "
-             "the canonical rendering re-lexes to the sequence; distinct = distinct token sequences The canonical rendering of a well-formed sequence is additionally anchored to the reference parser; comment bodies are random (non-ASCII, CR, nested markers, control and bidirectional characters); typographic-quote words; words ending in `::`; one separator of 16 … 140,000 characters.",
+             "the canonical rendering re-lexes to the sequence; distinct = distinct token sequences The canonical rendering of a well-formed sequence is additionally anchored to the reference parser; comment bodies are random (non-ASCII, CR, nested markers, control and bidirectional characters); typographic-quote words; words ending in `::`; one separator of 16 … 140,000 characters; typographic variants of operator characters and bracket words.",
         assumptions=COMMON + ["a separator plan is used only if the reference lexer re-lexes the rendering to the same tokens "
                               "(conservative empty-gap rule of DESIGN 3.1)"],
     ),
@@ -155,7 +155,7 @@ PROPS = {
              "Clone/PartialEq (with the H1 parser-precondition monitor), hostile strings through all 48 entry points, "
              "contexts built through new / set_value / clone / clear / context_map! / math_consts_context!; every "
              "workload runs in the release profile and in the unoptimised dev profile (overflow checks and debug "
-             "assertions on); non-trivial = every case (the only oracle is 'returned'); distinct = distinct inputs Added later: Display/Debug of 19 constructed and 19 evaluated errors around every pool value and long non-ASCII strings in all byte alignments; every phase of the C10 and C03 checks under the panic monitor; words made of the numeric characters of all scripts; user functions that re-enter the library or pass on another function's not-found error; every name the working tree's builtin table matches on (read from src/function/builtin.rs by the driver) with the full argument matrix; error constructors with degenerate arguments.",
+             "assertions on); non-trivial = every case (the only oracle is 'returned'); distinct = distinct inputs Added later: Display/Debug of 19 constructed and 19 evaluated errors around every pool value and long non-ASCII strings in all byte alignments; every phase of the C10 and C03 checks under the panic monitor; words made of the numeric characters of all scripts; user functions that re-enter the library or pass on another function's not-found error; every name the working tree's builtin table matches on (read from src/function/builtin.rs by the driver) with the full argument matrix; error constructors with degenerate arguments; access-path look-alikes (`a.2`, `a[2]`, `a.len`) on the bound names of the probe contexts.",
         assumptions=COMMON + ["worker threads run with an 8 MiB stack (the Linux main-thread default); the README bounds input length "
                               "because parsing and evaluation recurse",
                               "allocation failure is outside the property (README)",
@@ -172,7 +172,7 @@ PROPS = {
              "the shared objects from several threads; the same workload scaled down runs under Miri (one schedule per "
              "seed; UB and data races fatal) and, in the thorough tier, under ThreadSanitizer; Send + Sync of the 8 "
              "public types is decided by rustc on /verif/sendsync; non-trivial = every evaluation; distinct = distinct "
-             "interleaving signatures (hash of the thread-id sequence of the SlowContext log per round) Later additions: 13 expressions incl. 40/24/20-element nodes, 16 distinct builtins per expression, long identifiers; a context that lives through all rounds; contexts built on the worker threads; clones of shared trees are evaluated; only exactly specified builtins (Miri perturbs inexact float intrinsics); per round one shared tree assigning identifiers new to the process evaluated by all threads at once on their own contexts, 96 string-level evaluations of distinct sources per thread, a slow shared function called with 0.0 / -0.0 at overlapping times; min / max / contains_any on thousands of elements; a re-entrant user function racing with never-seen function names; a worker that makes no progress for 180 s (900 s under Miri) while others are unfinished is reported as a deadlock; per round and thread its own arguments for text conversions, fractional powers (not under Miri), renderings of 64+-element tuples.",
+             "interleaving signatures (hash of the thread-id sequence of the SlowContext log per round) Later additions: 13 expressions incl. 40/24/20-element nodes, 16 distinct builtins per expression, long identifiers; a context that lives through all rounds; contexts built on the worker threads; clones of shared trees are evaluated; only exactly specified builtins (Miri perturbs inexact float intrinsics); per round one shared tree assigning identifiers new to the process evaluated by all threads at once on their own contexts, 96 string-level evaluations of distinct sources per thread, a slow shared function called with 0.0 / -0.0 at overlapping times; min / max / contains_any on thousands of elements; a re-entrant user function racing with never-seen function names; a worker that makes no progress for 180 s (900 s under Miri) while others are unfinished is reported as a deadlock; per round and thread its own arguments for text conversions, fractional powers (not under Miri), renderings of 64+-element tuples, each repeated back to back behind a barrier; constant trees precompiled first thing on fresh threads and evaluated by all; long-lived threads calling a capturing function of per-round contexts; contains on 70,000 elements.",
         assumptions=COMMON + ["race detectors see only schedules that occurred (Miri: seeded; TSan/native: whatever the OS produced)",
                               "Send/Sync itself is the compiler's verdict, reported through the same interface"],
         profiles=[],
@@ -185,7 +185,7 @@ PROPS = {
              "subnormals, infinities, NaN, boundary ints, awkward strings and names, expression assignments, functions, "
              "builtin switch) serialized compactly or pretty and deserialized: variable map (floats by bit pattern), "
              "switch and absence of functions must survive; non-trivial = every round trip the transport itself "
-             "carries faithfully; distinct = distinct strings / serialized contexts Also: damaged / truncated serialized contexts interleaved (failed deserializations must leave nothing behind), tuples of 8-40 elements, hundreds of parentheses (nested, in strings, in comments), CR+LF in string literals, byte-order marks; function names differing from builtins only in case or by a look-alike letter; every word of a serialized context becomes a variable name of a second context that must round-trip; escape look-alike text values; names equal under a normalisation.",
+             "carries faithfully; distinct = distinct strings / serialized contexts Also: damaged / truncated serialized contexts interleaved (failed deserializations must leave nothing behind), tuples of 8-40 elements, hundreds of parentheses (nested, in strings, in comments), CR+LF in string literals, byte-order marks; function names differing from builtins only in case or by a look-alike letter; every word of a serialized context becomes a variable name of a second context that must round-trip; escape look-alike text values; names equal under a normalisation; the same further operations on the original and the round-tripped context; user functions named like builtins must be gone; values that are `==` and different side by side; root-qualified names.",
         assumptions=COMMON + ["built with cargo +1.81.0 (only that registry holds ron 0.8.1)",
                               "ron has a single NaN token: NaN payload and sign are outside what the format can carry",
                               "a string or context ron itself cannot carry (checked with a plain String / Vec) is skipped"],
